@@ -26,7 +26,7 @@ CHECKS.update({
    note=_TV_NOTE + ' Delivery of buffered stdout on abort (panic.c) is not decided here.'),
  'C18': dict(level='model_checking', engine='lirsym/qbe', design='4/C18',
    technique='bounded symbolic execution of emitted QBE IL: write-one/read-every-component non-interference, all values, z3',
-   text='For a pool of struct types (mixed widths, nested structs, fixed arrays inside structs, optionals) one template per (written component, read component / neighbour local / copy): the IL is executed symbolically and the solver decides that the written component reads back the new value and every other component, neighbouring locals and copies are unchanged, for all values. Pointer size 8 only (QBE).',
+   text='L2: for a pool of struct types one template per (written component, read component / neighbour local / copy): the IL is executed symbolically and the solver decides that the written component reads back the new value and every other component, neighbouring locals and copies are unchanged, for all values. L1 (gosym): alignTo; SizeOf / AlignOf / StructLayout / resultTagOffset for a pool of 16 payload types x both pointer sizes; HISTORY INDEPENDENCE of DataLayout: two five-field structs agreeing on their first two and last fields, middle fields symbolic, laid out on one DataLayout in either order, must each get the layout a fresh DataLayout gives.',
    note=_TV_NOTE + ' Pointer size 4 (wasm) and result types are not covered yet.'),
 })
 CHECKS['C09'] = dict(level='translation_validation', engine='lirsym/qbe', design='4/C09',
@@ -36,7 +36,7 @@ CHECKS['C09'] = dict(level='translation_validation', engine='lirsym/qbe', design
 _GO_NOTE = 'Trusted: z3; go/ssa; the gosym interpreter (x/tools ssa/interp extended with symbolic scalars/strings, validated by replaying witness models natively through the same harness); intrinsics for fmt, strings.Builder, bytealg, math/big, sync; harness oracles.'
 CHECKS['C11'] = dict(level='model_checking', engine='gosym', design='4/C11',
    technique='symbolic execution of the Go kernels (go/ssa) with SMT-decided value witnesses; pair space explored exhaustively, z3',
-   text='checkTypeCompatibility / isImplicitlyCompatible / isLosslessNumericConversion are executed from their SSA for every ordered pair of the 17 numeric types (the pair is a symbolic choice; all 289 pairs explored). For each pair the compiler treats as implicit the solver decides whether the source type has a value the target cannot represent (integer ranges as SMT Int; significand witness family for floats; bit-precise cross-check on a symbolic 64-bit value). Exhaustive in the pair space.',
+   text='KERNEL: checkTypeCompatibility / isImplicitlyCompatible / isLosslessNumericConversion executed from their SSA for every ordered pair of the 17 numeric types (all 289 pairs); for each implicit pair the solver decides whether the source type has a value the target cannot represent (integer ranges as SMT Int; significand witness family for floats; bit-precise cross-check on a symbolic 64-bit value). FRONT END: for every ordered pair and each of 12 assignment-like positions (let initialiser, assignment, call argument, return, ok- and error-side return of a result function, struct-literal field, array-literal element, optional target, field assignment through a reference, function-literal argument / return, assignment inside a match arm) the real front end runs on the program: accepted only if every value of S is representable in T. Exhaustive in the pair x position space.',
    note=_GO_NOTE + ' Float formats as documented in the repository. That every assignment-like site consults this kernel is read from the call sites, not decided.')
 CHECKS['C20'] = dict(level='model_checking', engine='gosym', design='4/C20',
    technique='bounded symbolic execution of the Go writer and parser (go/ssa) on symbolic strings/ints/keys, z3',
@@ -48,48 +48,48 @@ CHECKS['C16'] = dict(level='model_checking', engine='lirsym/llvm', design='4/C16
    note='Trusted: clang front end (-O0 IR = source), the C optimiser/back end that builds the shipped library, LLVM semantics in lirsym/llvm.py, libc summaries, z3. The induction that turns the loop obligations into quot = numer div denom is a paper argument. Not covered: pow, to_string, 256-bit and signed mul (thorough only), shifts, division by zero.')
 CHECKS['C17'] = dict(level='model_checking', engine='lirsym/llvm', design='4/C17',
    technique='symbolic execution of clang -O0 LLVM IR of array.c/map.c over region memory: one inductive step (arrays), bounded histories with symbolic keys (maps), z3',
-   text='Dynamic arrays: ONE operation (append incl. realloc growth, get, set, len) from an arbitrary valid state (symbolic contents, every length 0..capacity) with symbolic index/element; the solver decides the list-abstraction step and refusal of out-of-range requests, and every memory access must stay inside a live region. Maps: new_i32/new_i64, a concrete prefix of 0 or 12 distinct inserts (so the next insert crosses the resize threshold), then 1-2 inserts with symbolic keys/values and get / size / full iteration with a symbolic query key, against an abstract map over the same terms; the hash of a symbolic key is an uninterpreted function that agrees with FNV-1a on the concrete keys (all collision patterns).',
+   text='Dynamic arrays: ONE operation (append incl. realloc growth, get, set, len) from an arbitrary valid state with symbolic index / element; the solver decides the list-abstraction step and refusal of out-of-range requests, every access inside a live region. Maps: new_i32/new_i64, a concrete prefix (none, 12 spread keys so the next insert crosses the resize threshold, or 3-4 keys forming ONE hash chain), then 1-2 sets with symbolic keys / values (insert or overwrite at any chain position) and get / size / full iteration with a symbolic query key, against an abstract map over the same terms; the hash of a symbolic key is an uninterpreted function agreeing with FNV-1a on the concrete keys.',
    note='Trusted: clang front end, LLVM semantics in lirsym/llvm.py, libc summaries (malloc/calloc/realloc never fail), z3. Not covered: string/blob keys, from_pairs, free/destroy histories, capacities beyond 8, the optional out-layout.')
 CHECKS['C10'] = dict(level='model_checking', engine='gosym', design='4/C10',
-   technique='bounded symbolic execution of the Go range-check kernels (incl. strconv.ParseInt from source) on literals with symbolic digits, z3',
-   text='fitsInType / numeric.NewNumericValue / FitsInBitSize are executed symbolically on integer literal texts whose digits are symbolic (decimal, hex, octal, binary; separator; minus sign; leading zeros); for each of the eight types up to 64 bits the solver decides accepted <=> mathematical value in range, both directions, for every digit string of the listed lengths.',
+   technique='bounded symbolic execution of the Go range-check kernels on literals with symbolic digits (gosym), and of the emitted QBE IL for 128/256-bit literals over wide-integer runtime contracts (lirsym/qbe), z3',
+   text='KERNEL: fitsInType / numeric.NewNumericValue / FitsInBitSize executed symbolically on integer literal texts whose digits are symbolic (decimal, hex, octal, binary; separator; minus sign; leading zeros); for each of the eight types up to 64 bits the solver decides accepted <=> mathematical value in range, both directions. GENERATED CODE: for i128 / u128 / i256 / u256 literals at and around 2^63, 2^64, 2^127, 2^255 the emitted QBE IL is executed symbolically (the literal is compared with ==, >, < against a value built from the parameter and its low 64 bits are returned) and compared with the reference for all parameter values: the running program observes exactly the literal value.',
    note=_GO_NOTE + ' 128/256-bit types, the lexer pattern, literal positions and value materialisation in generated code are not decided here (the 128/256-bit text accumulation step is decided by C16).')
 CHECKS['C03'] = dict(level='other', engine='gosym', design='4/C03',
-   technique='symbolic execution of the type-compatibility decision kernel (go/ssa) over a pool of type pairs, SMT-backed path exploration',
-   text='PARTIAL: only the decision kernel. checkTypeCompatibility / isImplicitlyCompatible are executed from their SSA for every ordered pair of a pool of 36 types; for pairs in a forbidden rule class of the catalogue (numeric narrowing, float->int, also into/between optionals; T? where T is required; &T where &\'T is required; number/bool/str conversions) the verdict must not be implicit.',
+   technique='symbolic execution (go/ssa) of the real front end on a rule-catalogue x context product of ill-typed programs, plus the type-compatibility decision kernel over a pool of type pairs',
+   text='FRONT END: 36 ill-typed statements covering every rule class of the catalogue (mixed-type arithmetic, narrowing, float->int, non-bool condition / logical operand, argument count and type, undefined and redeclared names, missing / wrong return value, optional where T is required, unknown / missing / mistyped struct field, too many array initialisers, calling a non-function, unhandled result with and without arguments, error return from a non-result function) x 8 syntactic contexts x {function, method}: each program is run through the real lexer, parser, collector, resolver and type checker inside the symbolic interpreter and must be rejected with an error on the injected line; without the injection every context is accepted. KERNEL: checkTypeCompatibility / isImplicitlyCompatible for every ordered pair of a pool of 36 types; pairs in a forbidden rule class must not be implicit.',
    note=_GO_NOTE + ' That checkNode/checkExpr reach every context, argument counts, name resolution, return checking and the errors-gate-codegen rule are NOT decided (traversals over pointer-rich ASTs have no symbolic content within this technique).')
 CHECKS['C15'] = dict(level='model_checking', engine='gosym', design='4/C15',
    technique='symbolic execution of the dependency-graph code (go/ssa): edges and their arrival order are symbolic choices, all histories up to K explored',
-   text='AddDependency / findCycle / hasCyclePath / ComputeTopologicalOrder are executed from their SSA for every sequence of up to 4 (5 thorough) import edges over 3 modules (self-imports, repetitions, any arrival order; 9^K histories, the edge sequence is symbolic): an import is refused with a circular-import error exactly when it closes a cycle in the accepted graph (reference: transitive closure), the stored graph equals the accepted one, and the build order lists every module once, dependencies first, for both map iteration directions.',
+   text='AddDependency / findCycle / hasCyclePath / ComputeTopologicalOrder executed from their SSA for every sequence of up to 4 (5 thorough) import edges over 3 modules (9^K histories): an import is refused with a circular-import error exactly when it closes a cycle in the accepted graph (reference: transitive closure), the stored graph equals the accepted one, and the build order lists every module once, dependencies first, for both map iteration directions; and for every sequence of 4 edges (12^4) over FOUR modules two of which share their file base name (module identity must be the full import path).',
    note=_GO_NOTE + ' Mutexes are no-ops: the atomicity of check-then-insert under real concurrency, exactly-once module scheduling and cross-module symbol visibility are NOT decided.')
 CHECKS['C14'] = dict(level='other', engine='gosym', design='4/C14',
    technique='symbolic execution of the diagnostic sorter and the module ordering (go/ssa) with the arrival interleaving and the map iteration direction as symbolic choices',
    text='PARTIAL: (a) sortDiagnostics on 13 diagnostics of two concurrently parsed modules for all 1716 arrival interleavings (sort.Slice executed as Go\'s own pdqsort, sort.SliceStable as a stable sort): the emitted order must not depend on the interleaving; (b) the module build order after every import history of C15 for both map iteration directions.',
    note=_GO_NOTE + ' NOT covered: real goroutine schedules of parsing, the process-global literal-ID counters (utils/literals.go), map iteration inside the QBE / wasm emitters (emitTypeIDs, vtables), byte identity of generated code.')
 CHECKS['C13'] = dict(level='other', engine='gosym', design='4/C13',
-   technique='bounded symbolic execution of the lexer (regular expressions matched symbolically) and of the diagnostic builder (go/ssa), z3',
-   text='PARTIAL: (a) lexer.Tokenize on every ASCII source up to 2 bytes (3 thorough): no panic, termination within the step budget, EOF-terminated token list, spans inside the input; (b) WithPrimaryLabel / WithSecondaryLabel / sortDiagnostics / HasErrors with nil-ness of locations and file names symbolic: no panic, HasErrors <=> an error diagnostic was added.',
+   technique='bounded symbolic execution (go/ssa) of the real front end (through HIR generation and analyses) on every one-token mutation of two programs and on a one-byte symbolic mutation, with a step bound as termination obligation; lexer totality; diagnostic builder',
+   text='FRONT END: ONE token of a well-formed program deleted or replaced by one of 18 tokens (every token position of two programs covering unions, struct / map literals, enums, methods, results with catch, loops, match, function literals), and one byte of a short program replaced by a SYMBOLIC ASCII byte: the lexer, parser, collector, resolver, type checker, HIR generator and HIR analyses come back within 6,000,000 interpreted instructions (about 40x the well-formed cost; overflow is a violation, replayed under a 20 s watchdog), do not panic, and every diagnostic points inside the file. BOUNDED SLICE: lexer.Tokenize on every ASCII source up to 2 bytes (3 thorough); diagnostic builder / sorter with nil-ness of locations symbolic.',
    note=_GO_NOTE + ' NOT covered: parser, collector, resolver and type checker on partial ASTs, exit status, left-over artifacts, multi-file projects, non-ASCII input.')
 CHECKS['C19'] = dict(level='other', engine='gosym', design='4/C19',
-   technique='bounded symbolic execution of Position.Advance and of the lexer on token-trivia-token strings (go/ssa, symbolic regex matching), z3',
-   text='PARTIAL: (a) Position.Advance for every ASCII string up to 3 bytes (4 thorough) and every split point: byte index, line count and split-independence of the column; (b) the real lexer on tok1 . whitespace . tok2 for 6 token pairs and every whitespace string of length <= 2 (3 thorough): same tokens as with one space, second token starts where the trivia ends.',
+   technique='bounded symbolic execution (go/ssa) of the real front end with trivia (symbolic comment text) inserted in every token gap, of Position.Advance and of the lexer on token-trivia-token strings',
+   text='FRONT END: for every gap between two tokens of each program (two small ones quick, plus a broad-syntax one thorough) and every trivia kind (blank, newline, blank-newline-blanks, block comment, line comment; the comment text is ONE symbolic character) the real lexer, parser, collector, resolver and type checker run on the reformatted text: acceptance is unchanged, the set of error diagnostics is unchanged, and each diagnostic\'s byte index, line and column move exactly with the inserted text. KERNELS: Position.Advance for every ASCII string up to 3 bytes and every split point; the lexer on tok1 . whitespace . tok2 for 6 token pairs.',
    note=_GO_NOTE + ' NOT covered: comments as trivia, doc-comment attachment in the parser, acceptance and output of whole reformatted programs, diagnostics locations beyond the lexer.')
 CHECKS['C06'] = dict(level='other', engine='gosym', design='4/C06',
-   technique='symbolic execution of the mutability decision kernel (go/ssa) over symbolically chosen place expressions and root symbols',
-   text='PARTIAL (kernel): checkMutability + reportMutabilityError executed from SSA on place expressions of depth <= 2 (identifier, parenthesis, field, index) whose root symbol has symbolic kind, read-only flag and reference type: constant, read-only and &T roots must be refused with an error whatever the path; mutable variables must not.',
+   technique='symbolic execution (go/ssa) of the real front end on a binding x mutation-form x context product, plus the mutability decision kernel over symbolically chosen place expressions',
+   text='FRONT END: binding {index of a two-variable for loop over [N]T / []T / str / map / range, const, catch error variable, field behind an &P parameter, field behind an & receiver, let, field behind an &\'P parameter} x mutation form {=, +=, ++, --, let p: &\'T = &\'x, f(&\'x)} x context {function body, if, while, match arm, function literal}: the real front end must report an error on the mutating line for the immutable bindings and accept the mutable ones. KERNEL: checkMutability + reportMutabilityError on place expressions of depth <= 2 whose root symbol has symbolic kind, read-only flag and reference type.',
    note=_GO_NOTE + ' NOT decided: that every mutation form and syntactic context reaches the kernel, and that loop-index / catch variables are flagged read-only by the collector and type checker.')
 CHECKS['C07'] = dict(level='other', engine='gosym', design='4/C07',
-   technique='symbolic execution of the borrow checker loan table and place-overlap relation (go/ssa) over all short event histories against a reference model',
-   text='PARTIAL (kernels): pathsOverlap/pathsEqual vs the prefix relation; the loan table (addBorrow, bindRefFromIdent, releaseBinding, checkAccess, findBorrow, removeBorrowEntry) driven through every history borrow / copy-or-borrow / release / access over 4 places and 2 references (2880 histories, events symbolic): an error is reported exactly when a conflicting loan is live in the reference aliasing-xor-mutation model.',
+   technique='symbolic execution (go/ssa) of the real front end + HIR generation + borrow checker on a last-use-shape x conflict x position product, plus the loan table and place-overlap kernels over all short event histories',
+   text='FRONT END + BORROW CHECKER: a shared or mutable reference to a local whose last use sits in one of ten statement shapes (plain, then, else, trailing else of 2- and 3-arm else-if chains, middle arm, loop body, match arms, nested if) x a conflicting access (write, read of a mutably borrowed place, shared / mutable re-borrow) placed before the shape, inside the arm before the last use, or after the shape: rejected while the reference is still used later, accepted once its last use has passed. KERNELS: pathsOverlap/pathsEqual vs the prefix relation; the loan table driven through every 4-event history over 4 places and 2 references (2880 histories) against a reference aliasing-xor-mutation model.',
    note=_GO_NOTE + ' NOT decided: last-use computation and scope exit over real bodies, checkReturnLifetime, reference write-through in generated code (a few templates in C01).')
 CHECKS['C12'] = dict(level='other', engine='gosym', design='4/C12',
-   technique='symbolic execution of the visibility decision kernels (go/ssa) over symbolically chosen selector shapes, symbol kinds and scopes',
-   text='PARTIAL (kernels): utils.IsExported on every ASCII name up to 3 bytes; checkSelectorExpr (with the real inferExprType) on selectors of depth <= 3 over two struct types with private and exported fields, with symbol kinds (receiver / parameter / variable), reference-ness and shadowing symbolic: a lower-case field is accepted exactly when the base is an identifier resolving to a receiver.',
+   technique='symbolic execution (go/ssa) of the real front end with the first letter of the name symbolic (field access sites; two-module project), plus the visibility decision kernels',
+   text='FRONT END: (1) a struct field whose first letter is a SYMBOLIC ASCII letter accessed from 11 kinds of site (function, write through a &\' parameter, receiver read / write, another parameter of the same type inside a method, a method of another type, a function literal, a field chain, a loop body, a struct literal, with a same-named method present): accepted iff upper-case or reached through the receiver / initialised in a literal; (2) a function, constant, variable, type (let annotation, function-literal parameter) or method of module p/lib with a symbolic first letter named from module p/app (both modules run through the real front end in pipeline order): accepted iff upper-case. KERNELS: utils.IsExported on every ASCII name up to 3 bytes; checkSelectorExpr on selectors of depth <= 3 with symbol kinds, reference-ness and shadowing symbolic.',
    note=_GO_NOTE + ' NOT decided: module::symbol export checks, private types in type positions, other syntactic positions (range expressions etc.), multi-module projects.')
 CHECKS['C02'] = dict(level='translation_validation', engine='lirsym/qbe + lirsym/wasm', design='A.8 and 4/C02',
    technique='SMT-decided back-end agreement: the emitted QBE IL and the emitted .wasm binary of the same function executed symbolically on the same inputs, pairwise path comparison, all parameter values, z3',
    text='For a generated family of template functions (arithmetic, comparisons, casts incl. directly consumed narrowing casts, unguarded division/remainder, control flow, composites, references, dynamic arrays and strings, struct layout) the freshly built compiler emits native code (QBE IL, pointer size 8) and a .wasm module (pointer size 4). The IL and the decoded wasm function are executed symbolically on the same free 64-bit inputs; for every pair of paths z3 decides that termination class (normal / panic-or-trap), returned value and printed values agree. Counterexamples and one witness per template are replayed on the linked native executable and under node with the shipped runtime.js.',
-   note='Trusted: z3; QBE IL semantics (lirsym/qbe.py) and WebAssembly 1.0 semantics (lirsym/wasm.py), both validated by witness replay on every run; contracts for the C runtime (discharged by C16/C17) and for the imports runtime.js offers (NOT discharged: runtime.js is JavaScript and is only exercised by the node replays). Floating point is not executed. Templates either target rejects, or that import a function runtime.js lacks, are outside the claim and counted. Program shapes outside the generated families are not covered.')
+   note='Trusted: z3; go/ssa; the gosym interpreter; intrinsics; harness oracles. Front-end harnesses run the REAL lexer, parser, collector, resolver and type checker (go/ssa) inside the symbolic interpreter on programs assembled from symbolic choices / symbolic characters; within the stated finite product the exploration is exhaustive, nothing beyond it is claimed. NOT decided: what an accepted reformatted program prints, doc-comment / @extern attachment, programs outside the fixed set, multi-character comment bodies, tabs in the position obligation (known finding D10).')
 NA_DEFAULT = 'check not built yet (work in progress, see DESIGN.md section 11)'
 NA = {}
 
